@@ -1,8 +1,12 @@
 # Top-level build: regenerate Gen/*.v from /repo, build the Coq development, extract and build nbmodel.
 COQDIR := coq
 OUT := coq/Extract/out
-.PHONY: all gen coq model modeldeps clean
+.PHONY: all gen coq model modeldeps clean setup
 all: gen coq model
+# used as MANIFEST.setup_cmd: build everything that builds (a broken file must not stop the other properties)
+setup: gen coq/Makefile.coq
+	-cd coq && timeout 3000 $(MAKE) -f Makefile.coq -j16 -k --no-print-directory > /dev/null 2>&1
+	$(MAKE) --no-print-directory model
 gen:
 	@tools/gen/run_all.py
 coq/Makefile.coq: coq/_CoqProject
